@@ -118,7 +118,10 @@ def gen(ctx):
     for kind, prot in (('Array', APROT), ('RaggedArray', RPROT)):
         for _ in range(4 if ctx.quick else 30):
             ops = []
-            names = ['notes.txt', 'n2.json', 'sub/in.txt', './dotted.txt', 'ünï.txt'[:0] + 'uni.txt']
+            names = ['notes.txt', 'n2.json', 'sub/in.txt', './dotted.txt', 'uni.txt',
+                     # user names that merely BEGIN / END like protected ones
+                     'metadata.json.bak', 'README.txt.old', 'arrayvalues.bin.txt', 'xREADME.txt',
+                     'values_notes.txt' if kind == 'RaggedArray' else 'values', 'indices.json']
             for _ in range(12):
                 nm = dict(s=r.choice(names), aspath=r.random() < 0.3)
                 m = r.choice(['write_txt', 'write_jsondict', 'update_jsondict', 'delete_files', 'open_file',
